@@ -36,6 +36,11 @@ def predictAddParams (kvs : KVs) : Option (Res KVs) := do
   let format ← getF kvs "Format"
   if !(["~", "~trickle", "~balanced"].contains layout) || !(["~", "~car", "~unixfs"].contains format) then
     return .decErr
+  -- ToQueryString always writes cid-version; an explicit 0 with a hash other than sha2-256 is refused (6355d34).
+  -- An empty hash parameter leaves the default sha2-256.
+  let hash ← getF kvs "IPFSAddParams.HashFun"
+  if hash != "~" && !sha256Hash kvs && cidVersion0 kvs then
+    return .decErr
   match queryRoundtrip po with
   | .ok po' =>
     let rest := (kvs.filter fun kv => !kv.1.startsWith "PinOptions.").map fun kv =>
